@@ -268,6 +268,11 @@ def shard(ctx: Ctx, acc: Acc) -> None:
 				f.write('from __main__ import x\ny: int = 1\n')
 			for _ in range(3):
 				judge(acc, {'text': 'from vf07_back import y\nx: int = 1\n', 'path': 'mixed', 'kind': 'witness-import-of-main'})
+			# an on-disk module whose own import names a file that does not exist: the same report on every submission of its importer
+			with open(os.path.join(st2['src_dir'], 'vf07_miss.py'), 'w', encoding='utf-8') as f:
+				f.write('from vf07_nowhere import x\ny: int = 1\n')
+			for _ in range(3):
+				judge(acc, {'text': 'from vf07_miss import y\nz: int = y\n', 'path': 'mixed', 'kind': 'witness-import-of-missing'})
 			judge(acc, {'text': 'a = 1\n', 'path': 'mixed', 'kind': 'witness'})
 		if ctx.shard == 0:
 			# witnesses of the two defects fixed in /repo (known_findings.json, status=fixed)
